@@ -158,7 +158,8 @@ theorem precLe_floor (x : Version) (hx : PreFloor x.pre) (A B C : Nat) :
     decides the equivalence) -/
 theorem c02_npm_ast (r : Npm.VersionRange) (x : Version) (hx : PreFloor x.pre) :
     Npm.satisfiesRange r x = satComp (toRef r) x := by
-  cases r with
+  induction r with
+  | anchored r a ih => simp only [Npm.satisfiesRange, toRef]; exact ih
   | exact v =>
     simp only [Npm.satisfiesRange, toRef, satComp, boundsOf, fullP, Bounds.sat, Bool.not_false, Bool.true_and, Bool.and_true]
     rw [Bool.eq_iff_iff, peq_iff, beq_iff_eq, cmpPrec_eq]
@@ -291,7 +292,16 @@ theorem satComp_norm (c : Comp) (x : Version) : satComp (normComp c) x = satComp
   | hyphen a b => rfl
   | cmp op p =>
     obtain ⟨maj, min, pat, pre⟩ := p
-    cases op <;> cases maj <;> cases min <;> cases pat <;> rfl
+    cases op <;> cases maj <;> cases min <;> cases pat <;> try rfl
+    -- what is left: `^M.m`, whose spelling depends on `M > 0`
+    rename_i M m
+    simp only [normComp]
+    by_cases hM : M > 0
+    · have hne : (M == 0) = false := by simp; omega
+      simp [hM, satComp, boundsOf, floorP, floorV, hne]
+    · have h0 : M = 0 := by omega
+      subst h0
+      simp [satComp, boundsOf]
 
 theorem sat_norm (r : Range) (x : Version) : NodeSemver.sat (normRange r) x = NodeSemver.sat r x := by
   unfold NodeSemver.sat normRange
